@@ -53,6 +53,9 @@ CLAIMS = {
  'C18': ("Model of AttributeParser::next and parse_definition over abstract token trees; allNested_render (the tokenizer reads back exactly the items written, in any order), named_args_perm (every permutation of well-formed named arguments parses to the same canonical Definition), parseArgs_errors_iff (acceptance depends only on the multiset of arguments); group_then_assign_counterexample proves the code as found violated it; all permutations of every argument subset run through the real derive and compared (verdict, diagnostics, leaves, generated code), the model compared with the real parser on well-formed and malformed lists.",
          "equivalence of lexers under permutation of #[logos(...)] items is checked on captured leaves (order-insensitive), not proved.",
          "Lean theorems on the tokenizer model + all-permutations correspondence"),
+ 'C19': ("greedyFixed_iff: the repaired greedy-dot check is equivalent to the declarative 'an unbounded greedy repetition of a dot occurs at some depth, possibly inside capture groups' (greedyFound_misses_*: the check as found was not); variantFixed_never_panics / variantFixed_accepts_only for the variant-shape decision; nullable_iff for the empty-match decision; a malformed stream (variant shapes, duplicated and malformed arguments, nullable patterns, look-behind, unsupported features, greedy dots at every depth, undefined subpatterns, non-UTF-8 in str mode, argument-level mutations) runs through logos_codegen::generate under catch_unwind and through rustc as a real derive on stable.",
+         "partial: the model covers logos's decision logic, not syn or rustc; one known finding (resource exhaustion on a{1001}{1001}{1001}) is recorded, not repaired.",
+         "Lean theorems on the decision logic + malformed-stream correspondence through the library and through rustc"),
  'C20': ("attemptI_reads_monotone and attemptI_reads_linear hold for every graph (no well-formedness needed): within one attempt read offsets never decrease and reads <= 4*(bytes examined)+8; the real read traces (verif_trace) equal the model's predicted traces exactly and satisfy the same predicate directly.",
          "trace equality is a correspondence run on sampled inputs.",
          "Lean theorems for all graphs + exact trace correspondence"),
